@@ -42,6 +42,8 @@ func (c *sysCfg) String() string {
 		c.name, c.network, c.et, c.chunk, c.loops, c.reuseport, c.lb, c.ticker, c.readCap, c.writeCap, c.sndbuf, c.stopSrc, c.conns)
 }
 
+func contextBG() context.Context { return context.Background() }
+
 func freePort() int {
 	l, err := net.Listen("tcp", "127.0.0.1:0")
 	if err != nil {
@@ -167,9 +169,11 @@ func runPeer(rec *recorder, h *vhandler, sp *peerSpec, addr string, scratch stri
 	gotFin := make(chan struct{})
 	var finOnce sync.Once
 	release := make(chan struct{})
+	rdDone := make(chan struct{})
 	rd.Add(1)
 	go func() {
 		defer rd.Done()
+		defer close(rdDone)
 		p := &frameParser{c: sp.id, next: map[int]int{}}
 		buf := make([]byte, 32*1024)
 		total := 0
@@ -232,6 +236,8 @@ func runPeer(rec *recorder, h *vhandler, sp *peerSpec, addr string, scratch stri
 		select {
 		case <-gotFin:
 			rec.emit("PeerGotFin", "c", sp.id)
+		case <-rdDone: // the connection ended before the final frame (closed by the other side)
+			rec.emit("PeerNoFin", "c", sp.id)
 		case <-time.After(15 * time.Second):
 			// state witness: is anything still moving? bytes queued in the server's kernel send queue
 			// and in our receive queue, sampled twice
@@ -445,7 +451,7 @@ func leakedSince(base map[int]string) (n int, what []string) {
 func runServerScenario(t *testing.T, rec *recorder, cfg *sysCfg, seed uint64, scratch string, rep *vsup.Report) {
 	rng := vsup.NewRng(seed)
 	rec.emit("Reset", "cfg", cfg.String(), "et", cfg.et, "loops", cfg.loops, "seed", int(seed%1000000))
-	h := &vhandler{rec: rec, cfg: cfg, booted: make(chan struct{})}
+	h := &vhandler{rec: rec, cfg: cfg, booted: make(chan struct{}), raceMode: rec.muted}
 	var addr, dial string
 	if cfg.network == "unix" {
 		dial = filepath.Join(scratch, fmt.Sprintf("srv%d.sock", seed%100000))
@@ -795,6 +801,33 @@ func sysConfigs(rng *vsup.Rng, thorough bool) []*sysCfg {
 		}
 	}
 	return out
+}
+
+// TestVerifRace (C05, adjunct oracle): the same scenarios compiled with the race detector and with the recorder
+// OFF (the recorder's lock would order all hooked goroutines and hide races next to a hook).
+func TestVerifRace(t *testing.T) {
+	scratch := os.Getenv("VERIF_SYS_SCRATCH")
+	if scratch == "" {
+		scratch = t.TempDir()
+	}
+	rep := vsup.NewReport("race")
+	rec, err := newRecorder(os.Getenv("VERIF_TRACE"), rep)
+	if err != nil {
+		t.Fatal(err)
+	}
+	rec.muted = true // no sink is installed: the hooks touch no shared memory
+	rng := vsup.NewRng(vsup.Seed() + 555)
+	for r := 0; r < vsup.EnvInt("VERIF_ROUNDS", 1); r++ {
+		for _, cfg := range sysConfigs(rng, false) {
+			cfg.loops = 2 + rng.Intn(3)
+			cfg.lb = LeastConnections // (Register with RoundRobin is documented as racy)
+			cfg.conns = 5
+			runServerScenario(t, rec, cfg, rng.Uint64(), scratch, rep)
+		}
+	}
+	if err := rep.Write(); err != nil {
+		t.Fatal(err)
+	}
 }
 
 func TestVerifSys(t *testing.T) {
